@@ -25,6 +25,7 @@ def c20_frames(repo, reg, prop, tier, seed):
     checked, errors = [], []
     n_sites = 0
     samples = []
+    frame.scan_memoised([repo.module(mn) for mn in frontend.MODULE_FILES])
     for mn, m, cls, f in _functions(repo):
         ff = frame.FunctionFrame(m, f, cls).analyse()
         n_sites += len(ff.sites)
